@@ -235,13 +235,19 @@ func c20Gopacket(b []byte, ref *pkt.Info) (string, string) {
 		}
 		return "gopacket-agrees-udp", ""
 	case *layers.ICMPv4:
-		if ref.Version != 4 || ref.Proto != pkt.ProtoICMP || off(l) != ref.L4Off || !ref.HasICMP || l.TypeCode.Type() != ref.ICMPType || l.TypeCode.Code() != ref.ICMPCode || l.Id != ref.ICMPID {
+		if ref.Version != 4 {
+			break // ICMPv4 under IPv6 is just an unknown protocol to the classifier
+		}
+		if ref.Proto != pkt.ProtoICMP || off(l) != ref.L4Off || !ref.HasICMP || l.TypeCode.Type() != ref.ICMPType || l.TypeCode.Code() != ref.ICMPCode || l.Id != ref.ICMPID {
 			return "", fmt.Sprintf("gopacket ICMPv4 at %d type %d id %d, reference proto=%d at %d type %d id %d", off(l), l.TypeCode.Type(), l.Id, ref.Proto, ref.L4Off, ref.ICMPType, ref.ICMPID)
 		}
 		return "gopacket-agrees-icmp4", ""
 	case *layers.ICMPv6:
 		// gopacket: contents = 4 bytes, payload = rest
-		if ref.Version != 6 || ref.Proto != pkt.ProtoICMPv6 || off(l) != ref.L4Off || !ref.HasICMP || l.TypeCode.Type() != ref.ICMPType || l.TypeCode.Code() != ref.ICMPCode {
+		if ref.Version != 6 {
+			break // ICMPv6 under IPv4 is just an unknown protocol to the classifier
+		}
+		if ref.Proto != pkt.ProtoICMPv6 || off(l) != ref.L4Off || !ref.HasICMP || l.TypeCode.Type() != ref.ICMPType || l.TypeCode.Code() != ref.ICMPCode {
 			return "", fmt.Sprintf("gopacket ICMPv6 at %d type %d, reference proto=%d at %d type %d", off(l), l.TypeCode.Type(), ref.Proto, ref.L4Off, ref.ICMPType)
 		}
 		return "gopacket-agrees-icmp6", ""
